@@ -159,3 +159,7 @@ package durablestream
 //@ func WithLogger
 //@   props C10
 //@   ensures [opt.value] result != nil
+//@ func (*Store).HTTPClient
+//@   props C10
+//@   requires s != nil && s.cfg != nil
+//@   ensures [C10.ds.httpclient] result == s.cfg.httpClient
